@@ -11,9 +11,9 @@ open Chewing Chewing.Der
 def ValidPhrase (p : Phrase) : Prop :=
   (∀ c ∈ p.text, IsScalar c) ∧ p.freq < 2 ^ 32 ∧ ∀ t, p.lastUsed = some t → t < 2 ^ 64
 
-instance (p : Phrase) : Decidable (ValidPhrase p) := by
-  unfold ValidPhrase
-  cases h : p.lastUsed <;> simp <;> infer_instance
+instance (p : Phrase) : Decidable (ValidPhrase p) :=
+  decidable_of_iff ((∀ c ∈ p.text, IsScalar c) ∧ p.freq < 2 ^ 32 ∧ p.lastUsed.all (fun t => decide (t < 2 ^ 64)) = true)
+    (by unfold ValidPhrase; cases p.lastUsed <;> simp)
 
 theorem encPhrase_cons (p : Phrase) : ∃ bs, encPhrase p = tagSequence :: bs := ⟨_, rfl⟩
 
